@@ -38,25 +38,31 @@ theorem args_vals (P : Prog) (G L env) (ρ : SEnv) : ∀ (g : Nat) (es : List Py
         exact .cons (ha _ _ h1) (args_vals P G L env ρ g as _ v2 hr h2)
 
 /-- the statements proved together, for translator fuel `f` -/
-structure Sound (T : Tables) (P : Prog) (k : Nat) (f : Nat) : Prop where
-  expr : ∀ G L ctx env ρ e s, trExpr T P f G ctx e = .ok s → Agree ctx env ρ → DomL ctx L → exprOk G e = true →
+structure Sound (T : Tables) (P : Prog) (f : Nat) : Prop where
+  expr : ∀ G L ctx env ρ e s, trExpr T P f G ctx e = .ok s → Agree ctx env ρ → DomL ctx L →
     ∀ f2 v, evalExpr P f2 G L env e = some v → evalS ρ s = some v
-  args : ∀ G L ctx env ρ es ss, trArgs T P f G ctx es = .ok ss → Agree ctx env ρ → DomL ctx L → exprsOk G es = true →
+  args : ∀ G L ctx env ρ es ss, trArgs T P f G ctx es = .ok ss → Agree ctx env ρ → DomL ctx L →
     All2 (fun e s => ∀ f2 v, evalExpr P f2 G L env e = some v → evalS ρ s = some v) es ss
-  loop : ∀ G L body pieces rem isElif ctx env ρ bound j s ctx',
+  loop : ∀ G L body pieces rem isElif ctx env ρ s ctx',
     trLoop T P f G body pieces rem isElif ctx = .ok (s, ctx') →
-    okLoop Checks.all j G bound rem = true →
-    Agree ctx env ρ → DomL ctx L → DomB env bound → (∀ x ∈ bodyAssigned rem, L.contains x = true) →
+    Agree ctx env ρ → DomL ctx L → (∀ x ∈ bodyAssigned rem, L.contains x = true) →
     (∀ p ∈ pieces, evalS ρ p.2 = some (.bool false)) →
     ∀ f2 v, execBody P f2 G L env rem = some (.ret v) → evalS ρ s = some v
-  fnPlain : ∀ d margs s, fnToSympy T P f d margs = .ok s → (margs = none ∨ margs = some []) → fnOk k d = true →
+  /-- a body of plain assignments that falls through: the result is the last assigned name's value and the final
+  context describes the final environment -/
+  fall : ∀ G L body rem isElif ctx env ρ s ctx',
+    trLoop T P f G body [] rem isElif ctx = .ok (s, ctx') → allAssign rem = true →
+    Agree ctx env ρ → DomL ctx L → (∀ x ∈ bodyAssigned rem, L.contains x = true) →
+    ∀ f2 env', execBody P f2 G L env rem = some (.fall env') →
+    Agree ctx' env' ρ ∧ ∃ n, lastAssigned body = some n ∧ List.lookup n ctx' = some s
+  fnPlain : ∀ d margs s, fnToSympy T P f d margs = .ok s → (margs = none ∨ margs = some []) →
     ∀ f2 vs v, callFn P f2 d vs = some v →
     ∀ ρ : SEnv, (∀ n x, List.lookup n (d.params.zip vs) = some x → ρ n = some x) → evalS ρ s = some v
-  fnSubst : ∀ d m ms s, fnToSympy T P f d (some (m :: ms)) = .ok s → fnOk k d = true →
+  fnSubst : ∀ d m ms s, fnToSympy T P f d (some (m :: ms)) = .ok s →
     ∀ f2 vs v, callFn P f2 d vs = some v →
     ∀ ρ' : SEnv, All2 (fun m x => evalS ρ' m = some x) (m :: ms) vs → evalS ρ' s = some v
 
-theorem sound_zero (T : Tables) (P : Prog) (k : Nat) : Sound T P k 0 := by
+theorem sound_zero (T : Tables) (P : Prog) : Sound T P 0 := by
   constructor <;> intros <;> simp_all [trExpr, trArgs, trLoop, fnToSympy]
 
 theorem find_mem (P : Prog) (g : String) (d : FnDef) (h : P.find g = some d) : d ∈ P := by
@@ -113,12 +119,12 @@ theorem knownCall_ok {T : Tables} {key : String} {sargs : List SExpr} {s : SExpr
         | _ :: _ :: _ :: _, h => simp at h
 
 section step
-variable {T : Tables} {P : Prog} {k f : Nat}
+variable {T : Tables} {P : Prog} {f : Nat}
 
-theorem sound_expr (hT : TablesOk T) (hP : ∀ d ∈ P, fnOk k d = true) (ih : Sound T P k f) :
-    ∀ G L ctx env ρ e s, trExpr T P (f+1) G ctx e = .ok s → Agree ctx env ρ → DomL ctx L → exprOk G e = true →
+theorem sound_expr (hT : TablesOk T) (ih : Sound T P f) :
+    ∀ G L ctx env ρ e s, trExpr T P (f+1) G ctx e = .ok s → Agree ctx env ρ → DomL ctx L →
     ∀ f2 v, evalExpr P f2 G L env e = some v → evalS ρ s = some v := by
-  intro G L ctx env ρ e s h hag hdl hok f2 v hpy
+  intro G L ctx env ρ e s h hag hdl f2 v hpy
   cases f2 with
   | zero => simp [evalExpr] at hpy
   | succ g =>
@@ -150,21 +156,19 @@ theorem sound_expr (hT : TablesOk T) (hP : ∀ d ∈ P, fnOk k d = true) (ih : S
           cases gv <;> simp at h hpy <;> subst h <;> subst hpy <;> simp [evalS]
   | attr p =>
     rw [trExpr] at h; rw [evalExpr] at hpy
-    simp only [exprOk] at hok
     cases hg : List.lookup p G with
     | none => simp [hg] at h
     | some gv =>
-      rw [hg] at h hpy hok
-      cases gv <;> simp at h hpy hok <;> subst h <;> subst hpy <;> simp [evalS]
+      rw [hg] at h hpy
+      cases gv <;> simp at h hpy <;> subst h <;> subst hpy <;> simp [evalS]
   | un op a =>
     rw [trExpr] at h; rw [evalExpr] at hpy
-    simp only [exprOk] at hok
     rw [bind_ok] at h
     obtain ⟨sa, hsa, h⟩ := h
     cases ha : evalExpr P g G L env a with
     | none => simp [ha] at hpy
     | some va =>
-      have hva := ih.expr _ _ _ _ _ _ _ hsa hag hdl hok _ _ ha
+      have hva := ih.expr _ _ _ _ _ _ _ hsa hag hdl _ _ ha
       rw [ha] at hpy
       cases va with
       | bool _ => simp at hpy
@@ -186,7 +190,6 @@ theorem sound_expr (hT : TablesOk T) (hP : ∀ d ∈ P, fnOk k d = true) (ih : S
           · cases h
   | bin op a b =>
     rw [trExpr] at h; rw [evalExpr] at hpy
-    simp only [exprOk, Bool.and_eq_true] at hok
     rw [bind_ok] at h
     obtain ⟨sa, hsa, h⟩ := h
     rw [bind_ok] at h
@@ -197,8 +200,8 @@ theorem sound_expr (hT : TablesOk T) (hP : ∀ d ∈ P, fnOk k d = true) (ih : S
       cases hb : evalExpr P g G L env b with
       | none => rw [ha, hb] at hpy; cases va <;> simp at hpy
       | some vb =>
-        have hva := ih.expr _ _ _ _ _ _ _ hsa hag hdl hok.1 _ _ ha
-        have hvb := ih.expr _ _ _ _ _ _ _ hsb hag hdl hok.2 _ _ hb
+        have hva := ih.expr _ _ _ _ _ _ _ hsa hag hdl _ _ ha
+        have hvb := ih.expr _ _ _ _ _ _ _ hsb hag hdl _ _ hb
         rw [ha, hb] at hpy
         cases va with
         | bool _ => simp at hpy
@@ -223,7 +226,6 @@ theorem sound_expr (hT : TablesOk T) (hP : ∀ d ∈ P, fnOk k d = true) (ih : S
               · cases h
   | cmp l ops rs =>
     rw [trExpr] at h; rw [evalExpr] at hpy
-    simp only [exprOk, Bool.and_eq_true] at hok
     rw [bind_ok] at h
     obtain ⟨left, hleft, h⟩ := h
     rw [bind_ok] at h
@@ -233,7 +235,7 @@ theorem sound_expr (hT : TablesOk T) (hP : ∀ d ∈ P, fnOk k d = true) (ih : S
     cases hl : evalExpr P g G L env l with
     | none => simp [hl] at hpy
     | some vl =>
-      have hvl := ih.expr _ _ _ _ _ _ _ hleft hag hdl hok.1 _ _ hl
+      have hvl := ih.expr _ _ _ _ _ _ _ hleft hag hdl _ _ hl
       rw [hl] at hpy
       cases vl with
       | bool _ => simp at hpy
@@ -242,7 +244,7 @@ theorem sound_expr (hT : TablesOk T) (hP : ∀ d ∈ P, fnOk k d = true) (ih : S
         split at hpy
         · cases hpy
         · rename_i hne
-          have hall := ih.args _ _ _ _ _ _ _ hrights hag hdl hok.2
+          have hall := ih.args _ _ _ _ _ _ _ hrights hag hdl
           have hall' : All2 (fun e s => ∀ v, evalExpr P g G L env e = some v → evalS ρ s = some v) rs rights :=
             All2.imp (fun e s hh v hv => hh g v hv) hall
           obtain ⟨c, cs', hcs', hres⟩ := cmp_sound hT ρ _ ops rs rights left x cs v hall' hvl
@@ -253,10 +255,13 @@ theorem sound_expr (hT : TablesOk T) (hP : ∀ d ∈ P, fnOk k d = true) (ih : S
           exact hres
   | ife c t e =>
     rw [trExpr] at h; rw [evalExpr] at hpy
-    simp only [exprOk, Bool.and_eq_true] at hok
-    obtain ⟨⟨⟨hcmp, hokc⟩, hokt⟩, hoke⟩ := hok
     rw [bind_ok] at h
     obtain ⟨cond, hcond, h⟩ := h
+    rw [hT.testsBool] at h
+    split at h
+    · cases h
+    rename_i hbs
+    have hbs' : isBoolSorted cond = true := by simpa using hbs
     rw [bind_ok] at h
     obtain ⟨tt, htt, h⟩ := h
     rw [bind_ok] at h
@@ -266,28 +271,24 @@ theorem sound_expr (hT : TablesOk T) (hP : ∀ d ∈ P, fnOk k d = true) (ih : S
     cases hc : evalExpr P g G L env c with
     | none => simp [hc] at hpy
     | some cv =>
-      have hvc := ih.expr _ _ _ _ _ _ _ hcond hag hdl hokc _ _ hc
+      have hvc := ih.expr _ _ _ _ _ _ _ hcond hag hdl _ _ hc
       rw [hc] at hpy
       simp only at hpy
-      have hb : ∃ b, cv = .bool b := by
-        cases c <;> simp [isCmp] at hcmp
-        exact evalExpr_cmp_bool P g G L env _ _ _ cv hc
-      obtain ⟨b, hb⟩ := hb
+      obtain ⟨b, hb⟩ := boolSorted_val hbs' hvc
       subst hb
       cases b with
       | true =>
         simp only [truthy, ↓reduceIte] at hpy
         rw [evalS_pwOf_hit ρ _ _ _ hvc]
-        exact ih.expr _ _ _ _ _ _ _ htt hag hdl hokt _ _ hpy
+        exact ih.expr _ _ _ _ _ _ _ htt hag hdl _ _ hpy
       | false =>
         simp only [truthy, Bool.false_eq_true, ↓reduceIte] at hpy
         have := evalS_pwOf_skip ρ [(tt, cond)] [(ee, .boolLit true)] (by simpa using hvc)
         simp only [List.cons_append, List.nil_append] at this
         rw [this, evalS_pwOf_hit ρ _ _ _ (by simp [evalS])]
-        exact ih.expr _ _ _ _ _ _ _ hee hag hdl hoke _ _ hpy
+        exact ih.expr _ _ _ _ _ _ _ hee hag hdl _ _ hpy
   | call tgt args =>
     rw [trExpr] at h; rw [evalExpr] at hpy
-    simp only [exprOk] at hok
     rw [bind_ok] at h
     obtain ⟨sargs, hsargs, h⟩ := h
     cases ha : evalArgs P g G L env args with
@@ -295,7 +296,7 @@ theorem sound_expr (hT : TablesOk T) (hP : ∀ d ∈ P, fnOk k d = true) (ih : S
     | some vs =>
       rw [ha] at hpy
       simp only at hpy
-      have hall := ih.args _ _ _ _ _ _ _ hsargs hag hdl hok
+      have hall := ih.args _ _ _ _ _ _ _ hsargs hag hdl
       have hvals := args_vals P G L env ρ g args sargs vs hall ha
       by_cases hL : L.contains tgt = true
       · rw [if_pos hL] at hpy; cases hpy
@@ -329,65 +330,38 @@ theorem sound_expr (hT : TablesOk T) (hP : ∀ d ∈ P, fnOk k d = true) (ih : S
         | some d =>
           rw [hfind] at h hpy
           simp only at h hpy
-          have hd := hP d (find_mem P g' d hfind)
           cases sargs with
           | nil =>
             cases hvals
-            refine ih.fnPlain d (some []) s h (Or.inr rfl) hd g [] v hpy ρ ?_
+            refine ih.fnPlain d (some []) s h (Or.inr rfl) g [] v hpy ρ ?_
             intro n x hn
             simp at hn
           | cons m ms =>
-            exact ih.fnSubst d m ms s h hd g vs v hpy ρ hvals
+            exact ih.fnSubst d m ms s h g vs v hpy ρ hvals
   | callKw tgt args =>
     rw [evalExpr] at hpy; cases hpy
   | unsupported =>
     rw [trExpr] at h; cases h
 
-theorem sound_args (ih : Sound T P k f) :
-    ∀ G L ctx env ρ es ss, trArgs T P (f+1) G ctx es = .ok ss → Agree ctx env ρ → DomL ctx L → exprsOk G es = true →
+theorem sound_args (ih : Sound T P f) :
+    ∀ G L ctx env ρ es ss, trArgs T P (f+1) G ctx es = .ok ss → Agree ctx env ρ → DomL ctx L →
     All2 (fun e s => ∀ f2 v, evalExpr P f2 G L env e = some v → evalS ρ s = some v) es ss := by
-  intro G L ctx env ρ es ss h hag hdl hok
+  intro G L ctx env ρ es ss h hag hdl
   cases es with
   | nil => rw [trArgs] at h; cases h; exact .nil
   | cons a as =>
     rw [trArgs] at h
-    simp only [exprsOk, Bool.and_eq_true] at hok
     rw [bind_ok] at h
     obtain ⟨s, hs, h⟩ := h
     rw [bind_ok] at h
     obtain ⟨ss', hss, h⟩ := h
     rw [pure_ok] at h
     subst h
-    exact .cons (fun f2 v hv => ih.expr _ _ _ _ _ _ _ hs hag hdl hok.1 f2 v hv)
-      (ih.args _ _ _ _ _ _ _ hss hag hdl hok.2)
+    exact .cons (fun f2 v hv => ih.expr _ _ _ _ _ _ _ hs hag hdl f2 v hv)
+      (ih.args _ _ _ _ _ _ _ hss hag hdl)
 
 theorem contains_of_mem {L : List String} {x : String} (h : x ∈ L) : L.contains x = true := by
   simpa using h
-
-theorem disjoint_not_mem {a b : List String} (h : disjoint a b = true) {n : String} (hb : n ∈ b) : n ∉ a := by
-  intro ha
-  unfold disjoint at h
-  rw [List.all_eq_true] at h
-  have := h n ha
-  simp [hb] at this
-
-/-- a branch body was translated from `ctx`: the context afterwards still describes `env` -/
-theorem agree_frame {ctx ctx1 : Syms} {env : PyEnv} {ρ : SEnv} {bound : List String} {t : List PyStmt}
-    (hag : Agree ctx env ρ) (hdb : DomB env bound) (hdis : disjoint (bodyAssigned t) bound = true)
-    (hfr : ∀ n, n ∉ bodyAssigned t → List.lookup n ctx1 = List.lookup n ctx) : Agree ctx1 env ρ := by
-  intro n v hn
-  have hnb := hdb n v hn
-  rw [hfr n (disjoint_not_mem hdis hnb)]
-  exact hag n v hn
-
-theorem domL_frame {ctx ctx1 : Syms} {L : List String} {t : List PyStmt}
-    (hdl : DomL ctx L) (hsub : ∀ x ∈ bodyAssigned t, L.contains x = true)
-    (hfr : ∀ n, n ∉ bodyAssigned t → List.lookup n ctx1 = List.lookup n ctx) : DomL ctx1 L := by
-  intro n s hn
-  by_cases hm : n ∈ bodyAssigned t
-  · exact hsub n hm
-  · rw [hfr n hm] at hn
-    exact hdl n s hn
 
 theorem exec_single_cons (P : Prog) {g : Nat} {G L env} {st : PyStmt} {rest : List PyStmt} {r o : Outcome}
     (h1 : execBody P g G L env [st] = some r)
@@ -429,20 +403,134 @@ theorem pw_hit_after (ρ : SEnv) (pieces more : List (SExpr × SExpr)) (ifE cond
   simp only [List.cons_append, List.nil_append]
   exact evalS_pwOf_hit ρ _ _ _ hc
 
-theorem sound_loop (hT : TablesOk T) (ih : Sound T P k f) :
-    ∀ G L body pieces rem isElif ctx env ρ bound j s ctx',
-    trLoop T P (f+1) G body pieces rem isElif ctx = .ok (s, ctx') →
-    okLoop Checks.all j G bound rem = true →
-    Agree ctx env ρ → DomL ctx L → DomB env bound → (∀ x ∈ bodyAssigned rem, L.contains x = true) →
-    (∀ p ∈ pieces, evalS ρ p.2 = some (.bool false)) →
-    ∀ f2 v, execBody P f2 G L env rem = some (.ret v) → evalS ρ s = some v := by
-  intro G L body pieces rem isElif ctx env ρ bound j s ctx' h hok hag hdl hdb hsub hpf f2 v hpy
+theorem ret_name_val {P : Prog} {G : List (String × GVal)} {L : List String} {env : PyEnv} {n : String} {v : Val}
+    (hL : L.contains n = true) :
+    ∀ g, execBody P g G L env [.ret (.name n)] = some (.ret v) → List.lookup n env = some v := by
+  intro g h
+  cases g with
+  | zero => simp [execBody] at h
+  | succ g =>
+    rw [execBody] at h
+    cases g with
+    | zero => simp [execStmt] at h
+    | succ g =>
+      rw [execStmt] at h
+      cases g with
+      | zero => simp [evalExpr] at h
+      | succ g =>
+        rw [evalExpr] at h
+        rw [if_pos hL] at h
+        cases hl : List.lookup n env with
+        | none => simp [hl] at h
+        | some w => simp [hl] at h; rw [h]
+
+/-- the value a translated branch contributes is the value the function returns when Python takes the branch:
+either the branch returns it, or it falls through and the accepted continuation returns it -/
+theorem branch_value (ih : Sound T P f) {G : List (String × GVal)} {L : List String}
+    {b rest : List PyStmt} {ctx ctxB : Syms} {env : PyEnv} {ρ : SEnv} {bE : SExpr} {g : Nat} {o : Outcome} {v : Val}
+    (hb : trLoop T P f G b [] b false ctx = .ok (bE, ctxB)) (hbo : branchOk rest b = true)
+    (hag : Agree ctx env ρ) (hdl : DomL ctx L) (hsub : ∀ x ∈ bodyAssigned b, L.contains x = true)
+    (hex : execBody P g G L env b = some o)
+    (hcont : match o with
+             | .ret v' => v' = v
+             | .fall env' => ∃ g2, execBody P g2 G L env' rest = some (.ret v)) :
+    evalS ρ bE = some v := by
+  cases o with
+  | ret v' =>
+    simp only at hcont
+    subst hcont
+    exact ih.loop G L b [] b false ctx env ρ bE ctxB hb hag hdl hsub (by simp) g v' hex
+  | fall env' =>
+    simp only at hcont
+    obtain ⟨g2, hrest⟩ := hcont
+    unfold branchOk at hbo
+    simp only [Bool.or_eq_true, Bool.and_eq_true] at hbo
+    rcases hbo with hret | ⟨hao, hm⟩
+    · exact absurd hex ((no_fall P g).1 _ _ _ _ _ hret)
+    · obtain ⟨hag', n', hn', hlook⟩ :=
+        ih.fall G L b b false ctx env ρ bE ctxB hb (allAssign_of_assignOnly b hao) hag hdl hsub g env' hex
+      split at hm
+      · -- nothing follows: the continuation cannot return
+        cases g2 <;> simp [execBody] at hrest
+      · rename_i n x hla
+        have hnx : n = x := by simpa using hm
+        rw [hnx] at hrest
+        rw [hla] at hn'
+        have hxn : x = n' := Option.some.inj hn'
+        rw [← hxn] at hlook
+        have hL : L.contains x = true := hsub x (lastAssigned_mem b x hla)
+        have hv := ret_name_val hL g2 hrest
+        obtain ⟨s', hs', hev⟩ := hag' x v hv
+        rw [hlook] at hs'
+        cases hs'
+        exact hev
+      · cases hm
+
+theorem sound_fall (ih : Sound T P f) :
+    ∀ G L body rem isElif ctx env ρ s ctx',
+    trLoop T P (f+1) G body [] rem isElif ctx = .ok (s, ctx') → allAssign rem = true →
+    Agree ctx env ρ → DomL ctx L → (∀ x ∈ bodyAssigned rem, L.contains x = true) →
+    ∀ f2 env', execBody P f2 G L env rem = some (.fall env') →
+    Agree ctx' env' ρ ∧ ∃ n, lastAssigned body = some n ∧ List.lookup n ctx' = some s := by
+  intro G L body rem isElif ctx env ρ s ctx' h hall hag hdl hsub f2 env' hpy
   cases f2 with
   | zero => simp [execBody] at hpy
   | succ g =>
-  cases j with
-  | zero => simp [okLoop] at hok
-  | succ j =>
+  cases rem with
+  | nil =>
+    rw [execBody] at hpy
+    cases hpy
+    simp only [trLoop, List.isEmpty_nil, Bool.not_true, Bool.false_eq_true, ↓reduceIte] at h
+    cases hla : lastAssigned body with
+    | none => simp [hla] at h
+    | some x =>
+      rw [hla] at h
+      simp only at h
+      cases hl : List.lookup x ctx with
+      | none => simp [hl] at h
+      | some s0 =>
+        rw [hl] at h
+        cases h
+        exact ⟨hag, x, rfl, hl⟩
+  | cons st rest =>
+    rw [execBody] at hpy
+    rw [bodyAssigned_cons] at hsub
+    cases st with
+    | assign x e =>
+      simp only [allAssign] at hall
+      simp only [trLoop] at h
+      rw [bind_ok] at h
+      obtain ⟨se, hse, h⟩ := h
+      cases g with
+      | zero => simp [execStmt] at hpy
+      | succ g =>
+        rw [execStmt] at hpy
+        cases he : evalExpr P g G L env e with
+        | none => simp [he] at hpy
+        | some ve =>
+          rw [he] at hpy
+          simp only at hpy
+          have hve := ih.expr _ _ _ _ _ _ _ hse hag hdl _ _ he
+          exact ih.fall _ _ _ _ _ _ _ _ _ _ h hall (hag.cons x se ve hve)
+            (hdl.cons x se (hsub x (by simp [stmtAssigned]))) (fun y hy => hsub y (by simp [hy])) _ _ hpy
+    | tupleAssign _ _ => simp [allAssign] at hall
+    | augAssign _ _ _ => simp [allAssign] at hall
+    | ifs _ _ _ => simp [allAssign] at hall
+    | ret _ => simp [allAssign] at hall
+    | retNone => simp [allAssign] at hall
+    | skip => simp [allAssign] at hall
+    | unhandled => simp [allAssign] at hall
+
+theorem sound_loop (hT : TablesOk T) (ih : Sound T P f) :
+    ∀ G L body pieces rem isElif ctx env ρ s ctx',
+    trLoop T P (f+1) G body pieces rem isElif ctx = .ok (s, ctx') →
+    Agree ctx env ρ → DomL ctx L → (∀ x ∈ bodyAssigned rem, L.contains x = true) →
+    (∀ p ∈ pieces, evalS ρ p.2 = some (.bool false)) →
+    ∀ f2 v, execBody P f2 G L env rem = some (.ret v) → evalS ρ s = some v := by
+  intro G L body pieces rem isElif ctx env ρ s ctx' h hag hdl hsub hpf f2 v hpy
+  cases f2 with
+  | zero => simp [execBody] at hpy
+  | succ g =>
   cases rem with
   | nil => rw [execBody] at hpy; cases hpy
   | cons st rest =>
@@ -456,7 +544,6 @@ theorem sound_loop (hT : TablesOk T) (ih : Sound T P k f) :
     cases st with
     | assign x e =>
       simp only [trLoop] at h
-      simp only [okLoop, Checks.all, Bool.not_true, Bool.false_or, Bool.and_eq_true] at hok
       rw [bind_ok] at h
       obtain ⟨se, hse, h⟩ := h
       rw [execStmt] at hpy
@@ -465,12 +552,11 @@ theorem sound_loop (hT : TablesOk T) (ih : Sound T P k f) :
       | some ve =>
         rw [he] at hpy
         simp only at hpy
-        have hve := ih.expr _ _ _ _ _ _ _ hse hag hdl hok.1 _ _ he
-        exact ih.loop _ _ _ _ _ _ _ _ _ (x :: bound) j _ _ h hok.2 (hag.cons x se ve hve)
-          (hdl.cons x se (hsubst x (by simp [stmtAssigned]))) (hdb.cons x ve) hsubrest hpf _ _ hpy
+        have hve := ih.expr _ _ _ _ _ _ _ hse hag hdl _ _ he
+        exact ih.loop _ _ _ _ _ _ _ _ _ _ _ h (hag.cons x se ve hve)
+          (hdl.cons x se (hsubst x (by simp [stmtAssigned]))) hsubrest hpf _ _ hpy
     | tupleAssign xs es =>
       simp only [trLoop] at h
-      simp only [okLoop, Checks.all, Bool.not_true, Bool.false_or, Bool.and_eq_true] at hok
       rw [execStmt] at hpy
       split at h
       · cases h
@@ -485,11 +571,11 @@ theorem sound_loop (hT : TablesOk T) (ih : Sound T P k f) :
         | some vs =>
           rw [hes] at hpy
           simp only at hpy
-          have hall := ih.args _ _ _ _ _ _ _ hss hag hdl hok.1
+          have hall := ih.args _ _ _ _ _ _ _ hss hag hdl
           have hvals := args_vals P G L env ρ g es ss vs hall hes
-          exact ih.loop _ _ _ _ _ _ _ _ _ (xs ++ bound) j _ _ h hok.2 (agree_bindAll xs ss vs ctx env hag hvals)
+          exact ih.loop _ _ _ _ _ _ _ _ _ _ _ h (agree_bindAll xs ss vs ctx env hag hvals)
             (domL_bindAll xs ss ctx hdl (fun x hx => hsubst x (by simpa [stmtAssigned] using hx)))
-            (domB_setAll xs vs env bound hdb) hsubrest hpf _ _ hpy
+            hsubrest hpf _ _ hpy
     | augAssign x op e =>
       simp only [trLoop] at h
       rw [hT.stmtRefused] at h
@@ -501,13 +587,11 @@ theorem sound_loop (hT : TablesOk T) (ih : Sound T P k f) :
     | retNone => simp [trLoop] at h
     | skip =>
       simp only [trLoop] at h
-      simp only [okLoop] at hok
       rw [execStmt] at hpy
       simp only at hpy
-      exact ih.loop _ _ _ _ _ _ _ _ _ bound j _ _ h hok hag hdl hdb hsubrest hpf _ _ hpy
+      exact ih.loop _ _ _ _ _ _ _ _ _ _ _ h hag hdl hsubrest hpf _ _ hpy
     | ret e =>
       simp only [trLoop] at h
-      simp only [okLoop, Checks.all, Bool.not_true, Bool.false_or] at hok
       rw [bind_ok] at h
       obtain ⟨se, hse, h⟩ := h
       rw [execStmt] at hpy
@@ -517,7 +601,7 @@ theorem sound_loop (hT : TablesOk T) (ih : Sound T P k f) :
         rw [he] at hpy
         simp only [Option.some.injEq, Outcome.ret.injEq] at hpy
         subst hpy
-        have hve := ih.expr _ _ _ _ _ _ _ hse hag hdl hok _ _ he
+        have hve := ih.expr _ _ _ _ _ _ _ hse hag hdl _ _ he
         split at h
         · rw [pure_ok] at h
           cases h
@@ -533,30 +617,20 @@ theorem sound_loop (hT : TablesOk T) (ih : Sound T P k f) :
         fun x hx => hsubst x (by simp [stmtAssigned, hx])
       have hsub_e : ∀ x ∈ bodyAssigned e, L.contains x = true :=
         fun x hx => hsubst x (by simp [stmtAssigned, hx])
-      simp only [trLoop] at h
-      simp only [okLoop, Checks.all, Bool.not_true, Bool.false_or, Bool.and_eq_true] at hok
-      obtain ⟨⟨⟨⟨⟨hcmp, hokc⟩, hret_t⟩, hdis_t⟩, hok_t⟩, hok_e⟩ := hok
-      rw [bind_ok] at h
-      obtain ⟨cond, hcond, h⟩ := h
-      rw [bind_ok] at h
-      obtain ⟨⟨ifE, ctx1⟩, hb, h⟩ := h
-      simp only at h
+      obtain ⟨cond, ifE, ctxB, hcond, htb, hft, hb, hcases⟩ := trLoop_ifs_inv h
+      have hbs := htb hT.testsBool
+      have hbo_t := hft hT.fallChecked
+      rw [hT.branchCopies] at hcases
+      simp only [↓reduceIte] at hcases
       rw [execStmt] at hpy
       cases hc : evalExpr P g G L env c with
       | none => simp [hc] at hpy
       | some cv =>
         rw [hc] at hpy
         simp only at hpy
-        have hvc := ih.expr _ _ _ _ _ _ _ hcond hag hdl hokc _ _ hc
-        have hbool : ∃ b, cv = .bool b := by
-          cases c <;> simp [isCmp] at hcmp
-          exact evalExpr_cmp_bool P g G L env _ _ _ cv hc
-        obtain ⟨b, hbv⟩ := hbool
+        have hvc := ih.expr _ _ _ _ _ _ _ hcond hag hdl _ _ hc
+        obtain ⟨b, hbv⟩ := boolSorted_val hbs hvc
         subst hbv
-        have hfr : ∀ n, n ∉ bodyAssigned t → List.lookup n ctx1 = List.lookup n ctx :=
-          fun n hn => trLoop_frame T P n f G t [] t false ctx ifE ctx1 hb hn
-        have hag1 : Agree ctx1 env ρ := agree_frame hag hdb hdis_t hfr
-        have hdl1 : DomL ctx1 L := domL_frame hdl hsub_t hfr
         cases b with
         | true =>
           simp only [truthy, ↓reduceIte] at hpy
@@ -564,31 +638,22 @@ theorem sound_loop (hT : TablesOk T) (ih : Sound T P k f) :
           | none => simp [ht] at hpy
           | some o =>
             rw [ht] at hpy
-            cases o with
-            | fall env' => exact absurd ht ((no_fall P g).1 _ _ _ _ _ hret_t)
-            | ret v' =>
-              simp only [Option.some.injEq, Outcome.ret.injEq] at hpy
-              subst hpy
-              have hife : evalS ρ ifE = some v' :=
-                ih.loop G L t [] t false ctx env ρ bound j ifE ctx1 hb hok_t hag hdl hdb hsub_t (by simp) g v' ht
-              have hne1 : pieces ++ [(ifE, cond)] ≠ [] := by simp
-              split at h
-              · split at h
-                · cases h
-                · obtain ⟨more, hm⟩ := trLoop_shape T P _ _ _ _ _ _ _ _ _ hne1 h
-                  rw [hm, pw_hit_after ρ pieces more ifE cond hpf hvc]
-                  exact hife
-              · obtain ⟨more, hm⟩ := trLoop_shape T P _ _ _ _ _ _ _ _ _ hne1 h
-                rw [hm, pw_hit_after ρ pieces more ifE cond hpf hvc]
-                exact hife
-              · rw [bind_ok] at h
-                obtain ⟨⟨elseE, ctx2⟩, _, h⟩ := h
-                rw [bind_ok] at h
-                obtain ⟨r, hr, h⟩ := h
-                rw [pure_ok] at h
-                cases h
-                rw [mkPiecewise_ok hr, pw_hit_after ρ pieces _ ifE cond hpf hvc]
-                exact hife
+            have hife : evalS ρ ifE = some v := by
+              refine branch_value ih hb hbo_t hag hdl hsub_t ht ?_
+              cases o with
+              | ret v' => simpa using hpy
+              | fall env' => exact ⟨_, hpy⟩
+            have hne1 : pieces ++ [(ifE, cond)] ≠ [] := by simp
+            rcases hcases with ⟨_, h'⟩ | ⟨c2, t2, e2, _, h'⟩ | ⟨_, _, _, elseE, ctxE, _, hr⟩
+            · obtain ⟨more, hm⟩ := trLoop_shape T P _ _ _ _ _ _ _ _ _ hne1 h'
+              rw [hm, pw_hit_after ρ pieces more ifE cond hpf hvc]
+              exact hife
+            · obtain ⟨more, hm⟩ := trLoop_shape T P _ _ _ _ _ _ _ _ _ hne1 h'
+              rw [hm, pw_hit_after ρ pieces more ifE cond hpf hvc]
+              exact hife
+            · cases hr
+              rw [pw_hit_after ρ pieces _ ifE cond hpf hvc]
+              exact hife
         | false =>
           simp only [truthy, Bool.false_eq_true, ↓reduceIte] at hpy
           have hpf1 : ∀ p ∈ pieces ++ [(ifE, cond)], evalS ρ p.2 = some (.bool false) := by
@@ -598,20 +663,15 @@ theorem sound_loop (hT : TablesOk T) (ih : Sound T P k f) :
             · simp only [List.mem_singleton] at hp
               subst hp
               exact hvc
-          split at h
-          · -- no else
-            simp only at hok_e
+          rcases hcases with ⟨he, h'⟩ | ⟨c2, t2, e2, he, h'⟩ | ⟨_, _, hfe, elseE, ctxE, hb2, hr⟩
+          · subst he
             cases g with
             | zero => simp [execBody] at hpy
             | succ g =>
               rw [execBody] at hpy
               simp only at hpy
-              split at h
-              · cases h
-              · exact ih.loop _ _ _ _ _ _ _ _ _ bound j _ _ h hok_e hag1 hdl1 hdb hsubrest hpf1 _ _ hpy
-          · -- elif
-            rename_i c2 t2 e2
-            simp only at hok_e
+              exact ih.loop _ _ _ _ _ _ _ _ _ _ _ h' hag hdl hsubrest hpf1 _ _ hpy
+          · subst he
             cases hx : execBody P g G L env [PyStmt.ifs c2 t2 e2] with
             | none => simp [hx] at hpy
             | some o =>
@@ -627,35 +687,19 @@ theorem sound_loop (hT : TablesOk T) (ih : Sound T P k f) :
                 rcases List.mem_append.mp hx2 with hx2 | hx2
                 · exact hsub_e x (by rw [bodyAssigned_cons]; exact List.mem_append_left _ hx2)
                 · exact hsubrest x hx2
-              exact ih.loop _ _ _ _ _ _ _ _ _ bound j _ _ h hok_e hag1 hdl1 hdb hsub2 hpf1 _ _ hfull
-          · -- a proper else
-            rename_i hne_nil hne_elif
-            have hok_e' : (bodyReturns e = true ∧ disjoint (bodyAssigned e) bound = true) ∧
-                okLoop Checks.all j G bound e = true := by
-              split at hok_e
-              · exact absurd rfl hne_nil
-              · exact absurd rfl (hne_elif _ _ _)
-              · simpa [Checks.all, Bool.and_eq_true] using hok_e
-            obtain ⟨⟨hret_e, hdis_e⟩, hok_e2⟩ := hok_e'
-            rw [bind_ok] at h
-            obtain ⟨⟨elseE, ctx2⟩, hb2, h⟩ := h
-            rw [bind_ok] at h
-            obtain ⟨r, hr, h⟩ := h
-            rw [pure_ok] at h
-            cases h
-            cases he : execBody P g G L env e with
+              exact ih.loop _ _ _ _ _ _ _ _ _ _ _ h' hag hdl hsub2 hpf1 _ _ hfull
+          · cases he : execBody P g G L env e with
             | none => simp [he] at hpy
             | some o =>
               rw [he] at hpy
-              cases o with
-              | fall env' => exact absurd he ((no_fall P g).1 _ _ _ _ _ hret_e)
-              | ret v' =>
-                simp only [Option.some.injEq, Outcome.ret.injEq] at hpy
-                subst hpy
-                have helse : evalS ρ elseE = some v' :=
-                  ih.loop G L e [] e false ctx1 env ρ bound j elseE ctx2 hb2 hok_e2 hag1 hdl1 hdb hsub_e (by simp) g v' he
-                rw [mkPiecewise_ok hr, evalS_pwOf_skip ρ _ _ hpf1, evalS_pwOf_hit ρ _ _ _ (by simp [evalS])]
-                exact helse
+              have helse : evalS ρ elseE = some v := by
+                refine branch_value ih hb2 (hfe hT.fallChecked) hag hdl hsub_e he ?_
+                cases o with
+                | ret v' => simpa using hpy
+                | fall env' => exact ⟨_, hpy⟩
+              cases hr
+              rw [evalS_pwOf_skip ρ _ _ hpf1, evalS_pwOf_hit ρ _ _ _ (by simp [evalS])]
+              exact helse
 
 theorem callFn_exec {P : Prog} {f2 : Nat} {d : FnDef} {vs : List Val} {v : Val} (h : callFn P f2 d vs = some v) :
     ∃ g, execBody P g d.globals d.locals (d.params.zip vs) d.body = some (.ret v) := by
@@ -672,12 +716,12 @@ theorem callFn_exec {P : Prog} {f2 : Nat} {d : FnDef} {vs : List Val} {v : Val} 
         exact hv
       · cases h
 
-theorem sound_fnPlain_core (ih : Sound T P k f) (d : FnDef) (e : SExpr) (c' : Syms)
+theorem sound_fnPlain_core (ih : Sound T P f) (d : FnDef) (e : SExpr) (c' : Syms)
     (he : trLoop T P f d.globals d.body [] d.body false (d.params.map (fun p => (p, SExpr.sym p))) = .ok (e, c'))
-    (hd : fnOk k d = true) (f2 : Nat) (vs : List Val) (v : Val) (hpy : callFn P f2 d vs = some v)
+    (f2 : Nat) (vs : List Val) (v : Val) (hpy : callFn P f2 d vs = some v)
     (ρ : SEnv) (hρ : ∀ n x, List.lookup n (d.params.zip vs) = some x → ρ n = some x) : evalS ρ e = some v := by
   obtain ⟨g, hex⟩ := callFn_exec hpy
-  refine ih.loop d.globals d.locals d.body [] d.body false _ (d.params.zip vs) ρ d.params k e c' he hd ?_ ?_ ?_ ?_
+  refine ih.loop d.globals d.locals d.body [] d.body false _ (d.params.zip vs) ρ e c' he ?_ ?_ ?_
     (by simp) g v hex
   · intro n x hn
     have hmem := lookup_zip_mem n d.params vs hn
@@ -685,29 +729,27 @@ theorem sound_fnPlain_core (ih : Sound T P k f) (d : FnDef) (e : SExpr) (c' : Sy
   · intro n s hn
     obtain ⟨_, hmem⟩ := lookup_map_sym n d.params hn
     exact contains_of_mem (by simp [FnDef.locals, hmem])
-  · intro n x hn
-    exact lookup_zip_mem n d.params vs hn
   · intro x hx
     exact contains_of_mem (by simp [FnDef.locals, hx])
 
-theorem sound_fnPlain (ih : Sound T P k f) :
-    ∀ d margs s, fnToSympy T P (f+1) d margs = .ok s → (margs = none ∨ margs = some []) → fnOk k d = true →
+theorem sound_fnPlain (ih : Sound T P f) :
+    ∀ d margs s, fnToSympy T P (f+1) d margs = .ok s → (margs = none ∨ margs = some []) →
     ∀ f2 vs v, callFn P f2 d vs = some v →
     ∀ ρ : SEnv, (∀ n x, List.lookup n (d.params.zip vs) = some x → ρ n = some x) → evalS ρ s = some v := by
-  intro d margs s h hm hd f2 vs v hpy ρ hρ
+  intro d margs s h hm f2 vs v hpy ρ hρ
   rw [fnToSympy] at h
   rw [bind_ok] at h
   obtain ⟨⟨e, c'⟩, he, h⟩ := h
   have hs : s = e := by
     rcases hm with hm | hm <;> subst hm <;> simp only [pure_ok] at h <;> exact h.symm
   subst hs
-  exact sound_fnPlain_core ih d s c' he hd f2 vs v hpy ρ hρ
+  exact sound_fnPlain_core ih d s c' he f2 vs v hpy ρ hρ
 
-theorem sound_fnSubst (hT : TablesOk T) (ih : Sound T P k f) :
-    ∀ d m ms s, fnToSympy T P (f+1) d (some (m :: ms)) = .ok s → fnOk k d = true →
+theorem sound_fnSubst (hT : TablesOk T) (ih : Sound T P f) :
+    ∀ d m ms s, fnToSympy T P (f+1) d (some (m :: ms)) = .ok s →
     ∀ f2 vs v, callFn P f2 d vs = some v →
     ∀ ρ' : SEnv, All2 (fun m x => evalS ρ' m = some x) (m :: ms) vs → evalS ρ' s = some v := by
-  intro d m ms s h hd f2 vs v hpy ρ' hall
+  intro d m ms s h f2 vs v hpy ρ' hall
   rw [fnToSympy] at h
   rw [bind_ok] at h
   obtain ⟨⟨e, c'⟩, he, h⟩ := h
@@ -720,7 +762,7 @@ theorem sound_fnSubst (hT : TablesOk T) (ih : Sound T P k f) :
     rw [hT.substSim]
     simp only [↓reduceIte]
     rw [evalS_substSim]
-    refine sound_fnPlain_core ih d e c' he hd f2 vs v hpy _ ?_
+    refine sound_fnPlain_core ih d e c' he f2 vs v hpy _ ?_
     intro n x hn
     obtain ⟨m', hm', hx⟩ := lookup_zip_all2 d.params (m :: ms) vs hall n x hn
     simp only [substEnv, hm']
@@ -729,12 +771,11 @@ theorem sound_fnSubst (hT : TablesOk T) (ih : Sound T P k f) :
 end step
 
 /-- soundness of the translator model at every fuel -/
-theorem sound_all {T : Tables} {P : Prog} {k : Nat} (hT : TablesOk T) (hP : ∀ d ∈ P, fnOk k d = true) :
-    ∀ f, Sound T P k f := by
+theorem sound_all {T : Tables} {P : Prog} (hT : TablesOk T) : ∀ f, Sound T P f := by
   intro f
   induction f with
-  | zero => exact sound_zero T P k
+  | zero => exact sound_zero T P
   | succ f ih =>
-    exact ⟨sound_expr hT hP ih, sound_args ih, sound_loop hT ih, sound_fnPlain ih, sound_fnSubst hT ih⟩
+    exact ⟨sound_expr hT ih, sound_args ih, sound_loop hT ih, sound_fall ih, sound_fnPlain ih, sound_fnSubst hT ih⟩
 
 end Mxl.C06
